@@ -10,6 +10,7 @@ git -C $wt checkout -q -- . ; git -C $wt checkout -q --detach $(git -C /repo rev
 rsync -a --delete /verif/lean/ $lean/
 mkdir -p /tmp/try_seed_ev_$prop
 for p in "$@"; do
+  p=$(realpath "$p")
   git -C $wt apply $p || { echo "$p: does not apply"; continue; }
   (cd /verif && VERIF_REPO=$wt VERIF_LEAN=$lean VERIF_EVIDENCE_DIR=/tmp/try_seed_ev_$prop python3 check.py $prop ${TRY_ARGS} > /tmp/try_seed_out_${prop}_$(basename $p .diff).txt 2>&1); rc=$?
   echo "== $p exit=$rc"; [ $rc != 0 ] && ! grep -q "^VIOLATION" /tmp/try_seed_out_${prop}_$(basename $p .diff).txt && tail -3 /tmp/try_seed_out_${prop}_$(basename $p .diff).txt | cut -c1-300; grep -E "^VIOLATION|^violation|^KNOWN" /tmp/try_seed_out_${prop}_$(basename $p .diff).txt | cut -c1-240 | head -5
